@@ -2075,6 +2075,59 @@ func holdsPointer(rv reflect.Value, depth int, path valuePath) bool {
 	return false
 }
 
+// containsItself reports whether walking into a value comes back to a pointer, map or
+// slice that is already being walked
+func containsItself(rv reflect.Value, depth int, path valuePath) bool {
+	if depth > 32 || !rv.IsValid() {
+		return false
+	}
+	switch rv.Kind() {
+	case reflect.Ptr, reflect.Interface:
+		if rv.IsNil() {
+			return false
+		}
+		if rv.Kind() == reflect.Ptr {
+			var cycle bool
+			if path, cycle = path.enter(rv); cycle {
+				return true
+			}
+		}
+		return containsItself(rv.Elem(), depth+1, path)
+	case reflect.Slice, reflect.Array:
+		if rv.Kind() == reflect.Slice {
+			var cycle bool
+			if path, cycle = path.enter(rv); cycle {
+				return true
+			}
+		}
+		for i := 0; i < rv.Len(); i++ {
+			if containsItself(rv.Index(i), depth+1, path) {
+				return true
+			}
+		}
+	case reflect.Map:
+		if rv.IsNil() {
+			return false
+		}
+		var cycle bool
+		if path, cycle = path.enter(rv); cycle {
+			return true
+		}
+		for _, k := range rv.MapKeys() {
+			if containsItself(rv.MapIndex(k), depth+1, path) {
+				return true
+			}
+		}
+	case reflect.Struct:
+		for i := 0; i < rv.NumField(); i++ {
+			if containsItself(rv.Field(i), depth+1, path) {
+				return true
+			}
+		}
+	}
+	return false
+}
+
 // maxDereferencedLen bounds the text written for one value: a value in which many paths
 // lead to the same large parts would otherwise take exponentially long to print
 const maxDereferencedLen = 1 << 20
